@@ -58,7 +58,7 @@ fn main() {
         }
     }
     util::install_quiet_panic_hook();
-    watchdog::start(&prop, out.as_deref());
+    watchdog::start(&prop, out.as_deref(), tier == Tier::Thorough);
     let mut ctx = Ctx {
         rng: rng::Rng::new(seed, &prop),
         tier,
